@@ -6,6 +6,7 @@ from symx import (sym_num, sym_int, sym_real, check, obs, cover, eq, ge, le, lt,
 from props.netcommon import Rec, mk_packet, step_all, DrawStub, RandomStub
 
 PROPERTY = 'C09'
+RED_ID = 'r1'
 INF = float('inf')
 
 
@@ -243,6 +244,8 @@ def h_red(cfg):
                     check('c09.red-curve', Or(below, And(mid, le(p, 0))), k)
                 held.append(pkt)
                 accepted.append(pkt)
+                # a REDPort is a Port: an accepted packet carries this hop's arrival stamp under the port's element id
+                check('c09.perhop-stamp', RED_ID in pkt.perhop_time and eq(pkt.perhop_time.get(RED_ID, -1), env.now), k)
                 cover('red-accepted')
             if drew:
                 cover('nontrivial')
